@@ -2,9 +2,9 @@
 (* Generator and design-level checks for C13 / C16: histories of group calls *)
 (* over a matcher pool, followed by a product of requests (with fault plans). *)
 EXTENDS Group, Json
-CONSTANTS Depth, EmitAll, Recs, ReqSel
-VARIABLES G, hist, nbase
-vars == <<G, hist, nbase>>
+CONSTANTS Depth, EmitAll, Recs, ReqSel, Alphas
+VARIABLES G, hist, nbase, alpha
+vars == <<G, hist, nbase, alpha>>
 viewG == G
 
 StdI == [digit |-> "digit", word |-> "word", any |-> "any"]
@@ -33,17 +33,26 @@ GNewOps == {[op |-> "gnew", inst |-> "r3", m |-> m, cfg |-> c] : m \in MatchersG
 RECURSIVE ApplyAll(_, _, _)
 ApplyAll(g, ops, i) == IF i > Len(ops) THEN g ELSE ApplyAll(ApplyGOp(g, ops[i]).g, ops, i + 1)
 
-Init == \E rec \in Recs : G = ApplyAll(NewGroup(rec), BaseOps, 1) /\ hist = BaseOps /\ nbase = Len(BaseOps)
-Next == /\ Len(hist) - nbase < Depth /\ UNCHANGED nbase
-        /\ \/ \E o \in GOps : G' = ApplyGOp(G, o).g /\ hist' = Append(hist, o)
-           \/ \E o \in GNewOps : GNewOK(G, o.inst) /\ G' = ApplyAll(ApplyGOp(G, o).g, Table(o.inst), 1) /\ hist' = Append(hist, o) \o Table(o.inst)
+\* the "deep" base already holds a group middleware and two routers; from there a small alphabet of per-router Use /
+\* Handle calls is explored to depth 3 (routers of one group must not see each other's middlewares)
+DeepBase == BaseOps \o <<[op |-> "guse", mws |-> <<"g">>], [op |-> "gadd", inst |-> "r1", m |-> Hosts(<<"a.com">>)], [op |-> "gadd", inst |-> "r2", m |-> PV(<<"v1">>)]>>
+DeepOps == {[op |-> "use", inst |-> "r1", mws |-> <<"a">>], [op |-> "use", inst |-> "r2", mws |-> <<"b">>], [op |-> "guse", mws |-> <<"h">>],
+            Hd("r1", "/y", <<"GET">>, <<>>), Hd("r2", "/y", <<"GET">>, <<"m">>), [op |-> "gremove", inst |-> "r1"]}
+Init == \E rec \in Recs : \/ ("full" \in Alphas /\ G = ApplyAll(NewGroup(rec), BaseOps, 1) /\ hist = BaseOps /\ nbase = Len(BaseOps) /\ alpha = "full")
+                           \/ ("deep" \in Alphas /\ G = ApplyAll(NewGroup(rec), DeepBase, 1) /\ hist = DeepBase /\ nbase = Len(DeepBase) /\ alpha = "deep")
+Next == /\ UNCHANGED <<nbase, alpha>>
+        /\ \/ /\ alpha = "full" /\ Len(hist) - nbase < Depth
+              /\ \/ \E o \in GOps : G' = ApplyGOp(G, o).g /\ hist' = Append(hist, o)
+                 \/ \E o \in GNewOps : GNewOK(G, o.inst) /\ G' = ApplyAll(ApplyGOp(G, o).g, Table(o.inst), 1) /\ hist' = Append(hist, o) \o Table(o.inst)
+           \/ /\ alpha = "deep" /\ Len(hist) - nbase < 3
+              /\ \E o \in DeepOps : G' = ApplyGOp(G, o).g /\ hist' = Append(hist, o)
 Spec == Init /\ [][Next]_vars
 
 \* requests: host x path x Accept (x method); fault plans for C16
 Rq(kind, n, m, p, h, a, f) == [op |-> kind, inst |-> n, method |-> m, path |-> p, host |-> h,
                                hdr |-> IF a = "" THEN <<>> ELSE [Accept |-> a], faults |-> f]
 HostsQ == {"a.com", "s.b.com", "A.COM:80", "c.com"}
-PathsQ == {"/v1/x", "/v11/x", "/x", "/v1", "/v1/7q", "/nope/y"}
+PathsQ == {"/v1/x", "/v11/x", "/x", "/v1", "/v1/7q", "/nope/y", "/y", "/v1/y"}
 AcceptQ == {"", "application/json; version=v2", "text/html; version=v3"}
 ReqsC13 == {Rq("gserve", "", m, p, h, a, <<>>) : m \in {"GET", "POST"}, p \in PathsQ, h \in HostsQ, a \in AcceptQ}
 FaultVals == {"error", "string", "runtime"}
@@ -54,7 +63,7 @@ ReqsC16 == {Rq(k, n, m, p, "a.com", "", (s :> v)) : k \in {"gserve", "rserve"}, 
 Reqs == IF ReqSel = "C16" THEN ReqsC16 ELSE ReqsC13
 
 CaseOf == [fam |-> "group", cfg |-> [recovery |-> G.rec, name |-> "g"], ops |-> hist, reqs |-> Reqs]
-Emit == (Len(hist) > nbase /\ (EmitAll \/ Len(hist) - nbase >= Depth)) => PrintT("CASE " \o ToJson(CaseOf))
+Emit == (Len(hist) > nbase /\ (EmitAll \/ Len(hist) - nbase >= Depth \/ alpha = "deep")) => PrintT("CASE " \o ToJson(CaseOf))
 
 \* ---- design-level properties
 NamesUnique == \A i, j \in 1..Len(G.order) : i # j => G.order[i] # G.order[j]
